@@ -522,6 +522,18 @@ __all__""")]),
     dict(id="allpair-append-raw-name", kind=B, props=["C19"], expect="ALL-PAIR", edits=[("gen.py",
          """            or global__all__.append(name_tpl.format(name=name))""",
          """            or global__all__.append(name)""")]),
+    dict(id="genlayout-all-first", kind=B, props=["C19"], expect="GEN-LAYOUT", edits=[("gen.py",
+         """    content = "{prepend}{imports}\\n{functions_and_classes}\\n{__all}".format(""",
+         """    content = "{prepend}{functions_and_classes}\\n{imports}\\n{__all}".format(""")]),
+    dict(id="pairs-first-only", kind=B, props=["C14"], expect="PAIRS", edits=[("sync_properties.py",
+         """    for (input_param, output_param) in zip(input_params, output_params):""",
+         """    for (input_param, output_param) in zip(input_params[:1], output_params):""")]),
+    dict(id="pairs-skip-same-name", kind=B, props=["C14"], expect="PAIRS", edits=[("sync_properties.py",
+         """    for (input_param, output_param) in zip(input_params, output_params):
+        output_ast = sync_property(""", """    for (input_param, output_param) in zip(input_params, output_params):
+        if input_param == output_param:
+            continue
+        output_ast = sync_property(""")]),
     dict(id="ctor-functiondef-without-decorator-list", kind=B, props=["C06"], expect="CTOR", edits=[("emitter_utils.py",
          """                body=body,
                 decorator_list=[],
